@@ -23,7 +23,7 @@ from sim.world import Run
 
 ID = "C32"
 LEVEL = "exploration"
-RUNS = {"quick": 12000, "thorough": 300000}
+RUNS = {"quick": 12000, "thorough": 1800000}
 BUDGET = {"quick": 100.0, "thorough": 3300.0}
 RULE = ("one run = one device management connection (UDP / TCP / secure) with 1-8 property requests from 1-3 concurrent "
         "callers and seeded server behaviour per request (answer kinds, acknowledgement kinds, indications, closes); "
